@@ -216,8 +216,11 @@ def do_op(w: World, op):
             return "skip"   # one subroutine in flight per application
         # "recvf": the subroutine faults after its wait (frees a qubit outside the unit module) - an older subroutine can fail
         # while a younger one is still waiting
-        tail = "set Q1 9\nqfree Q1\n" if k == "recvf" else ""
-        r = w.send(node, sub_msg(app, f"array 10 @5\narray 1 @6\nstore {v} @6[0]\nrecv_epr(9,{sock}) 6 5\nwait_all @5[0:10]\n" + tail), app, tag=(k, v))
+        # (the register the faulting instruction needs is written before the wait: a resumed subroutine changes nothing but what
+        # its own response delivers, so the isolation snapshot stays exact for every other application)
+        head = "set Q1 9\n" if k == "recvf" else ""
+        tail = "qfree Q1\n" if k == "recvf" else ""
+        r = w.send(node, sub_msg(app, head + f"array 10 @5\narray 1 @6\nstore {v} @6[0]\nrecv_epr(9,{sock}) 6 5\nwait_all @5[0:10]\n" + tail), app, tag=(k, v))
         if r == "blocked":
             n["requests"].append((app, sock))
         elif sock in n["early"] and not any(getattr(x, "purpose_id", None) == sock for x in n["ex"]._pending_epr_responses):
